@@ -8,7 +8,7 @@ git -C $WT diff -- src > $DST/patch.diff
 rm -rf $DST/demo; cp -r $WT/demo $DST/demo 2>/dev/null
 LOG=$DST/confirm.log
 : > $LOG
-( cd $WT && cmake -G Ninja -S $WT -B $WT/_build -DCMAKE_BUILD_TYPE=RelWithDebInfo >/dev/null 2>&1 && cmake --build $WT/_build 2>&1 | grep -E "warning:|error:" | grep -v -i doxygen | head -5 ; ctest --test-dir $WT/_build -j4 --timeout 900 2>&1 | tail -8 ) >> $LOG 2>&1
+( cd $WT && cmake -G Ninja -S $WT -B $WT/_build -DCMAKE_BUILD_TYPE=RelWithDebInfo >/dev/null 2>&1 && cmake --build $WT/_build 2>&1 | grep -E "warning:|error:" | grep -v -i doxygen | head -5 ; ctest --test-dir $WT/_build -j4 --timeout 900 2>&1 | tail -8 ; echo "--- rerun of failed tests alone (load-induced 60 s per-test timeouts)"; ctest --test-dir $WT/_build --rerun-failed -j1 --timeout 900 2>&1 | tail -6 ) >> $LOG 2>&1
 echo "--- demo WITH change" >> $LOG
 ( cd $WT && timeout 900 bash demo/run.sh > /tmp/demo_$ID.with 2>&1; echo "exit=$?" ) >> $LOG 2>&1
 tail -3 /tmp/demo_$ID.with >> $LOG
